@@ -24,6 +24,9 @@ CpsToStr(c)  == Missing
 \* hashes and MACs
 Sha256(b)          == Missing    \* 32 bytes
 Keccak256(b)       == Missing    \* 32 bytes, original Keccak padding
+\* Keccak256Rep(prefix, b, n) = Keccak256(prefix \o <<b, ..., b>> (n times)): native, so that messages of 10^7 bytes need no
+\* TLC sequence; PrimTest compares it with the definition
+Keccak256Rep(prefix, b, n) == Missing
 HmacSha512(k, d)   == Missing    \* 64 bytes
 Pbkdf2HmacSha512(pw, salt, rounds, dkLen) == Missing
 
